@@ -5,6 +5,9 @@ HERE = os.path.dirname(os.path.dirname(os.path.abspath(__file__)))
 
 # id -> (technique, level text, level note, design ref)
 CHECKS = {
+ "C15": ("model-based testing against a reference frame renderer + metamorphic batching invariance: proptest-generated frames with shrinking",
+         "Generated VRAM (three styles), OAM (up to 40 objects biased to edges, shared lines, equal X), scroll, window, palette and LCDC values are held constant while the machine runs one whole frame in 4-clock batches and in generated larger batches; the buffer presented at VBlank must equal models::ppu's composition pixel for pixel, and both runs must agree.",
+         "trusted: models::ppu with the stated selection/priority semantics; LCD and BG enabled; mid-frame register effects and DMG window glitches out of scope", "DESIGN.md §5 C15"),
  "C16": ("model-based testing against a per-machine-cycle DMA model on a twin bus + metamorphic batching invariance: exhaustive over source pages and completion instants, proptest histories with shrinking",
          "All 256 source pages are transferred in one and in split batches, with a source byte changed after k machine cycles for k around 0, 79 and 158-161; generated histories of start/advance/write operations (writes biased around the copy position, onto bank registers, OAM and 0xFF46) are compared after every operation with models::dma driving a twin machine (OAM and the whole remaining state), and every advance is re-delivered in pieces to a third instance.",
          "trusted: models::dma; memory behind the bus is the repository's on both sides; OAM bytes copied from live I/O registers and frame buffers are not compared", "DESIGN.md §5 C16"),
